@@ -377,16 +377,14 @@ def family(rec):
         if ''.join(t[1] for t in exp) == ''.join(t[1] for t in got):
             return 'E-text/adjacent-tokens-pasted'
         return 'E-text/' + diffsig(exp, got, rec['defined'])
-    if mode == 'D':
-        return 'D/il-differs-from-expanded-program'
     sig = diffsig(exp, got, rec['defined'])
-    if 'keyword-body-expanded-twice' in rec['flags']:
-        return 'wrong-expansion/second-expansion-of-macro-whose-body-contains-a-keyword'
     if 'uninvoked-funclike-name-followed-by-funclike-name' in rec['flags']:
         return 'wrong-expansion/funclike-name-directly-after-uninvoked-funclike-name'
     site = asan_probe(rec)
     if site:
         return 'crash/' + site      # the wrong output is what a memory error looks like in the plain build
+    if 'keyword-body-expanded-twice' in rec['flags']:
+        return 'wrong-expansion/second-expansion-of-macro-whose-body-contains-a-keyword'
     if 'funclike-name-ends-replacement-list' in rec['flags']:
         return 'wrong-expansion/funclike-name-ending-a-replacement-list'
     extra = ''
@@ -731,6 +729,9 @@ def _asan_job(srcs):
 # second witness: GNU cpp
 
 
+_defname_re = re.compile(r'^[ \t]*#[ \t]*define[ \t]+([A-Za-z_]\w*)', re.M)
+
+
 def run_cpp(text):
     p = subprocess.run(['cpp', '-std=c11', '-P', '-pedantic-errors', '-fno-show-column', '-'], input=text.encode('latin-1'),
                        stdout=subprocess.PIPE, stderr=subprocess.PIPE, timeout=60)
@@ -772,7 +773,8 @@ def _cpp_job(recs):
             parts.append(s)
             parts.append(MARK % k + '\n')
             line += nl + 1
-            for nm in r['defined']:
+            # every name a #define line mentions, whatever the model thinks of that line (cpp may define it all the same)
+            for nm in sorted(set(r['defined']) | set(_defname_re.findall(s))):
                 parts.append('#undef %s\n' % nm)
                 line += 1
         try:
